@@ -146,3 +146,50 @@ Example C06_nonvacuous :
   | Err _ => false
   end = true.
 Proof. vm_compute. reflexivity. Qed.
+
+From NurbsV Require Import Spec.BSpline Model.Linalg Model.Quadrature Model.LeastSq Model.CurveLS Proofs.ForcedProofs.
+From NurbsV Require Proofs.UnionProofs.
+(* ---- tolerance=None (Proofs/ForcedProofs.v): the forced degree reduction interpolates the old curve at the remaining knots. ---- *)
+Theorem C06_forced_reduction_interpolates :
+  forall (c : curve) (t : nat) (c' : curve) (P : list pt) (d : nat),
+       cW c = None ->
+       cP c = Some P ->
+       WF (kvec (ckv c)) (kdeg (ckv c)) ->
+       length P = knpts (ckv c) ->
+       Forall (fun q : pt => length q = d) P ->
+       c_degree_decrease c t None = Ok c' ->
+       (1 <= kdeg (ckv c'))%nat ->
+       exists P' : list pt,
+         cP c' = Some P' /\
+         cW c' = None /\
+         length P' = knpts (ckv c') /\
+         Forall (fun q : pt => length q = d) P' /\
+         (forall z : Q,
+          In z (kknots (ckv c')) ->
+          Forall2 Qeq (curve_spec (kvec (ckv c')) (kdeg (ckv c')) d P' z)
+            (curve_spec (kvec (ckv c)) (kdeg (ckv c)) d P z)).
+Proof. exact forced_degree_decrease_interpolates. Qed.
+Print Assumptions C06_forced_reduction_interpolates.
+
+Theorem C06_forced_reduction_interpolates_everywhere_separated :
+  forall (c c' : curve) (P : list pt) (d : nat),
+       cW c = None ->
+       cP c = Some P ->
+       WF (kvec (ckv c)) (kdeg (ckv c)) ->
+       length P = knpts (ckv c) ->
+       Forall (fun q : pt => length q = d) P ->
+       (1 <= kdeg (ckv c'))%nat ->
+       forall t : nat,
+       c_degree_decrease c t None = Ok c' ->
+       UnionProofs.separated (kvec (ckv c')) ->
+       exists P' : list pt,
+         cP c' = Some P' /\
+         cW c' = None /\
+         length P' = knpts (ckv c') /\
+         Forall (fun q : pt => length q = d) P' /\
+         (forall x : Q,
+          In x (kvec (ckv c')) ->
+          Forall2 Qeq (curve_spec (kvec (ckv c')) (kdeg (ckv c')) d P' x)
+            (curve_spec (kvec (ckv c)) (kdeg (ckv c)) d P x)).
+Proof. exact forced_degree_decrease_interpolates_all. Qed.
+Print Assumptions C06_forced_reduction_interpolates_everywhere_separated.
